@@ -434,13 +434,35 @@ func (e *Env) lvals(x ast.Expr) []LV {
 				return lvs
 			case "forkargs":
 				// forkargs(param): the ghost array recording that argument of every forked thread
-				nm, ok := x.Args[0].(*ast.Ident)
+				nm, ok := x.Args[len(x.Args)-1].(*ast.Ident)
 				if !ok {
-					e.fail(x, "forkargs(paramName)")
+					e.fail(x, "forkargs([function,] paramName)")
 				}
 				root := vc.fn
+				if e.fnCtx != nil {
+					root = e.fnCtx
+				}
 				for root != nil && root.Parent() != nil {
 					root = root.Parent()
+				}
+				if len(x.Args) == 2 {
+					// forkargs(function, param): the thread closure of another function (frames of callers)
+					fname, ok := x.Args[0].(*ast.Ident)
+					if !ok {
+						e.fail(x, "forkargs(function, paramName)")
+					}
+					if vc.w.fnCache == nil {
+						vc.w.fnCache = vc.w.repoFunctions()
+					}
+					root = nil
+					for _, k := range sortedKeys(vc.w.fnCache) {
+						if strings.HasSuffix(k, "."+fname.Name) {
+							root = vc.w.fnCache[k]
+						}
+					}
+					if root == nil {
+						e.fail(x, "forkargs: no function %s", fname.Name)
+					}
 				}
 				for _, af := range root.AnonFuncs {
 					if c := vc.lookupContract(funcKey(af)); c != nil && c.Thread {
@@ -477,7 +499,7 @@ func (e *Env) lvals(x ast.Expr) []LV {
 				return []LV{{Arr: mapDomArr(ks, vs), Sort: mapDomSort(ks), Idx: m.T}, {Arr: mapValArr(ks, vs), Sort: mapValSort(ks, vs), Idx: m.T}}
 			}
 			if fr, ok := vc.specs.Frames[id.Name]; ok {
-				fe := &Env{vc: vc, pkg: fr.Pkg, vars: map[string]TV{}, heap: e.heap, old: e.old, tparams: e.tparams, facts: e.facts}
+				fe := &Env{vc: vc, pkg: fr.Pkg, vars: map[string]TV{}, heap: e.heap, old: e.old, tparams: e.tparams, facts: e.facts, fnCtx: e.fnCtx}
 				for i, pn := range fr.Params {
 					if i < len(x.Args) {
 						fe.vars[pn] = e.tr(x.Args[i])
